@@ -80,13 +80,21 @@ def get_address_contract(eng):
         st = State(); fr, hd, ffc, arr, nn = mk_frame(st, inv=False, eng=e)
         pos = z3.Int("position"); st.pc += [pos >= 0]
         yield st, [hd, SInt(pos)]
+    # loop variables by role: the index the loop steps (for-target, or the variable a while loop increments), the bytearray the body appends to
+    q_ga = H + "HdlcFrameHeader._get_address"; fn_ga = eng.funcs[q_ga][0]
+    loops_ga = [x for x in ast.walk(fn_ga) if isinstance(x, (ast.For, ast.While))]
+    if len(loops_ga) != 1: raise Unsupported("_get_address: expected exactly one loop")
+    IDX = loop_roles(fn_ga, loops_ga[0])["index"]
+    apps = sorted({x.func.value.id for x in ast.walk(loops_ga[0]) if isinstance(x, ast.Call) and isinstance(x.func, ast.Attribute) and x.func.attr == "append" and isinstance(x.func.value, ast.Name)})
+    if IDX is None or len(apps) != 1: raise Unsupported(f"_get_address: loop roles not recognised (index {IDX}, appended {apps})")
+    ADR = apps[0]
     def inv_ga(st, e):
-        hd = st.locals["self"]; d = st.getf(st.getf(hd, "_frame"), "_frame_data"); pos = to_int(st.locals["position"]); ii = to_int(st.locals["i"])
-        adr = st.locals["adr"]; k = z3.Int("k__i")
+        hd = st.locals["$entry"][0]; d = st.getf(st.getf(hd, "_frame"), "_frame_data"); pos = to_int(st.locals["$entry"][1]); ii = to_int(st.locals[IDX])
+        adr = st.locals[ADR]; k = z3.Int("k__i")
         return z3.And(pos <= ii, S.FO(d.arr, pos, d.n) == S.FO(d.arr, ii, d.n), adr.n == ii - pos, adr.off == 0,
                       z3.ForAll([k], z3.Implies(z3.And(0 <= k, k < adr.n), adr.at(k) == d.at(pos + k))))
     def dec_ga(st, e):
-        hd = st.locals["self"]; d = st.getf(st.getf(hd, "_frame"), "_frame_data"); return d.n - to_int(st.locals["i"])
+        hd = st.locals["$entry"][0]; d = st.getf(st.getf(hd, "_frame"), "_frame_data"); return d.n - to_int(st.locals[IDX])
     eng.loop_specs[(H + "HdlcFrameHeader._get_address", 0)] = (inv_ga, dec_ga, {})
     def post_ga(st, args, res, old, e):
         hd, pos = args; d = st.getf(st.getf(hd, "_frame"), "_frame_data"); fo = S.FO(d.arr, pos.e, d.n)
